@@ -75,6 +75,8 @@ type Exec struct {
 	MustNot []string          `json:"mustnot"`
 	Applied []string          `json:"applied"`
 	Stage   string            `json:"stage"`
+	// > 0: the hook's name is so long that creating the i-th temp file fails (file-name limit): no process runs
+	PrepFail int `json:"prepfail"`
 }
 
 type Step struct {
@@ -195,13 +197,27 @@ func content(k, c string, n names, variant int) string {
 
 var cmGVR = schema.GroupVersionResource{Group: "", Version: "v1", Resource: "configmaps"}
 
+// realHook maps the specification's hook name to the path below the hooks directory. L<n> = a relative path of
+// n characters: hook.go derives the temp file names from it, and with n = 189 / 190 / 193 the name of the
+// conversion-response / admission-response / binding-context file exceeds NAME_MAX (255).
+func realHook(h string) string {
+	if strings.HasPrefix(h, "L") {
+		n := 0
+		fmt.Sscan(h[1:], &n)
+		if n > 10 {
+			return "long/" + strings.Repeat("h", n-5)
+		}
+	}
+	return h
+}
+
 func hookConfigs() []opfix.HookCfg {
 	mk := func(name string) opfix.HookCfg {
 		return opfix.HookCfg{Name: name,
 			Kube:  []opfix.KubeB{{Name: "k1", Queue: "qk", Sync: false}},
 			Sched: []opfix.SchedB{{Name: "s1", Crontab: "c1", Queue: "qa"}, {Name: "s2", Crontab: "c2", Queue: "qb"}}}
 	}
-	return []opfix.HookCfg{mk("c12a"), mk("sub/c12b")}
+	return []opfix.HookCfg{mk("c12a"), mk("sub/c12b"), mk(realHook("L189")), mk(realHook("L190")), mk(realHook("L193"))}
 }
 
 func buildContexts(ds []CtxDesc) []bctx.BindingContext {
@@ -339,6 +355,9 @@ func (r *runner) observe(x *running) (map[string]bool, map[string]string) {
 
 // cause names the input class of an execution for signatures
 func cause(x Exec) string {
+	if x.PrepFail > 0 {
+		return "prepare-failed"
+	}
 	if x.Exit != 0 {
 		return "exit-nonzero"
 	}
@@ -451,7 +470,7 @@ func (r *runner) runCase(c Case) Result {
 				}
 			}
 			bcs := buildContexts(pl.Ctxs)
-			meta := task_metadata.HookMetadata{HookName: pl.Hook, Binding: pl.Ctxs[0].Binding, BindingContext: bcs, AllowFailure: false}
+			meta := task_metadata.HookMetadata{HookName: realHook(pl.Hook), Binding: pl.Ctxs[0].Binding, BindingContext: bcs, AllowFailure: false}
 			meta.BindingType = bcs[0].Metadata.BindingType
 			x.t = task.NewTask(task_metadata.HookRun).WithMetadata(meta).WithQueueName(pl.Queue)
 			x.t.WithQueuedAt(time.Now())
@@ -501,6 +520,66 @@ func (r *runner) runCase(c Case) Result {
 				}
 			}
 			r.checkStart(c, i, x, fail, soft, tag(e), runs)
+		case "PrepareFail":
+			// the temp files of this hook cannot all be created: the handler fails without a process and leaves nothing
+			if x == nil {
+				soft(i, e, "DIV/case", "PrepareFail without Plan")
+				return finish()
+			}
+			f.NewExecs()
+			x.done = make(chan string, 1)
+			go func(x *running) {
+				r := f.Op.VerifTaskHandler(x.t)
+				x.done <- string(r.Status)
+			}(x)
+			deadline := time.Now().Add(15 * time.Second)
+			for x.status == "" && time.Now().Before(deadline) {
+				select {
+				case x.status = <-x.done:
+				case <-time.After(500 * time.Microsecond):
+					if xs := f.NewExecs(); len(xs) > 0 {
+						// this file system accepts the long names: the case does not apply here
+						s := xs[0]
+						x.start = &s
+						f.FinishExec(s.ID, map[string]interface{}{"exit": 0})
+						x.exited = true
+						soft(i, e, "DIV/prepare-did-not-fail", fmt.Sprintf("%s: the hook process started although a temp file name of %d+ characters was expected to be refused", tag(e), 256))
+						select {
+						case x.status = <-x.done:
+						case <-time.After(15 * time.Second):
+						}
+						x.ended = true
+						return finish()
+					}
+				}
+			}
+			if x.status == "" {
+				soft(i, e, "DIV/steer/handler-hang", tag(e)+": the task handler did not return within 15s")
+				return finish()
+			}
+			x.ended = true
+			x.paths = map[string]string{}
+			r.checkEnd(c, i, x, &res, fail, soft, tag(e))
+			// whatever is in the temp directory and does not belong to another execution was left by this one
+			others := map[string]bool{}
+			for _, o := range runs {
+				if o != x {
+					for _, p := range o.paths {
+						others[filepath.Base(p)] = true
+					}
+				}
+			}
+			ents, _ := os.ReadDir(f.TmpDir)
+			left := []string{}
+			for _, en := range ents {
+				if !others[en.Name()] {
+					left = append(left, en.Name())
+					os.Remove(filepath.Join(f.TmpDir, en.Name()))
+				}
+			}
+			if len(left) > 0 {
+				fail(i, e, fmt.Sprintf("C12/leftover/prepare-failed/file-%d", x.x.PrepFail), fmt.Sprintf("%s: hook name of %d characters: creating temp file %d of 5 failed (task status %s, no process), the files created before it were left in the temp directory: %d file(s), e.g. %.60s...", tag(e), len(realHook(x.x.Hook)), x.x.PrepFail, x.status, len(left), left[0]))
+			}
 		case "ExecExit":
 			if x == nil || x.start == nil {
 				soft(i, e, "DIV/case", "ExecExit without a process")
@@ -581,8 +660,8 @@ func sortedKeys(m map[string]*running) []string {
 func (r *runner) checkStart(c Case, i int, x *running, fail, soft func(int, string, string, string), tag string, runs map[string]*running) {
 	s := x.start
 	f := r.f
-	if s.Hook != x.x.Hook {
-		fail(i, x.e, "C12/wrong-hook", fmt.Sprintf("%s: hook %s was executed for a task of hook %s", tag, s.Hook, x.x.Hook))
+	if s.Hook != realHook(x.x.Hook) {
+		fail(i, x.e, "C12/wrong-hook", fmt.Sprintf("%s: hook %s was executed for a task of hook %s", tag, s.Hook, realHook(x.x.Hook)))
 	}
 	wantCwd := real(filepath.Join(f.HooksDir, x.x.Cwd))
 	if real(s.Cwd) != wantCwd {
